@@ -121,6 +121,13 @@ fn constraint_text(c: &Case) -> String {
     let ext = if c.ext { ", ..." } else { "" };
     match c.form.as_str() {
         "single" => format!("({}{ext})", r(&c.ranges[0])),
+        // the same set written with excluded endpoints (X.680 51.4.2): `(l-1)<..h`, `l..<(h+1)`
+        "open-lo" | "open-hi" | "open-both" => {
+            let (l, h) = (c.ranges[0].0.unwrap(), c.ranges[0].1.unwrap());
+            let lo = if c.form != "open-hi" { format!("{}<", l - 1) } else { l.to_string() };
+            let hi = if c.form != "open-lo" { format!("<{}", h + 1) } else { h.to_string() };
+            format!("({lo}..{hi}{ext})")
+        }
         "serial" => format!("({})({}{ext})", r(&c.ranges[0]), r(&c.ranges[1])),
         "union" => format!("({}{ext})", c.ranges.iter().map(r).collect::<Vec<_>>().join(" | ")),
         _ => unreachable!(),
@@ -254,6 +261,24 @@ impl Prop for C06 {
                     for x in xs {
                         for ctx in val_ctx {
                             out.push(Case { ranges: vec![(*lo, *hi)], form: "single".into(), ext, ctx: ctx.into(), x: Some(x) });
+                        }
+                    }
+                }
+            }
+        }
+        // finite ranges written with excluded endpoints
+        for lo in b.iter() {
+            for hi in b.iter() {
+                if lo > hi || *lo == i128::MIN || *hi == i128::MAX {
+                    continue;
+                }
+                for form in ["open-lo", "open-hi", "open-both"] {
+                    for ctx in ["assign", "component", "seqof"] {
+                        out.push(Case { ranges: vec![(Some(*lo), Some(*hi))], form: form.into(), ext: false, ctx: ctx.into(), x: None });
+                    }
+                    for x in [*lo, *hi] {
+                        for ctx in ["value", "default"] {
+                            out.push(Case { ranges: vec![(Some(*lo), Some(*hi))], form: form.into(), ext: false, ctx: ctx.into(), x: Some(x) });
                         }
                     }
                 }
